@@ -11,11 +11,12 @@ Viol(r) ==
     IF ~(r.loose \/ IsCode(r.code)) THEN {}
     ELSE IF r.out = "exc" THEN {"raised_other_than_supplied_error"}
     ELSE IF r.out = "err" \/ r.empty THEN {}
-    ELSE LET cls == ClassOfEvent(r.code, r.loose) IN
-         (CASE cls = "timed" -> TimeShapeFail(r.res, r.prec) \cup SpeedFail(r.res, r.dist)
-            [] cls = "field" -> FieldFail(r.res, r.rec120c)
-            [] cls = "multi" -> MultiFail(r.res)
-            [] OTHER -> IF r.numberlike THEN {} ELSE {"result_not_number_like"})
+    ELSE LET cls == ClassesOfEvent(r.code, r.loose) IN
+         (IF "timed" \in cls THEN TimeShapeFail(r.res, r.prec) \cup SpeedFail(r.res, r.dist)
+                                      \cup (IF r.loose THEN {} ELSE SpeedFailStated(r.res, r.code)) ELSE {})
+         \cup (IF "field" \in cls THEN FieldFail(r.res, r.rec120c) ELSE {})
+         \cup (IF "multi" \in cls THEN MultiFail(r.res) ELSE {})
+         \cup (IF cls = {"other"} /\ ~r.numberlike THEN {"result_not_number_like"} ELSE {})
          \cup (IF r.again = "same" THEN {} ELSE {"returned_value_not_accepted_unchanged"})
 Drift(r) == IF ~r.loose /\ IsCode(r.code) # r.chk THEN {"automaton_disagrees_with_re"} ELSE {}
 Check(t) == LET r == Trace[t]
